@@ -3,7 +3,8 @@
 (* Verdict for C45.  A case is a pair of operator trees (packed form, as   *)
 (* OperatorKeysEnum emitted them) that the harness built with the real     *)
 (* porepy classes on a real md-grid, each from scratch:                    *)
-(*   t1, t2   the trees                                                    *)
+(*   t1, t2   the trees; route = how t2 was built (OperatorKeys!Routes):   *)
+(*            the verdict does not depend on it                            *)
 (*   keyeq    t1._key() == t2._key()        hasheq   hash(t1) == hash(t2)  *)
 (*   err      "" or the exception raised while building / asking the keys  *)
 (* Clauses (the property):                                                 *)
@@ -17,7 +18,8 @@
 (***************************************************************************)
 EXTENDS Judge, OperatorKeys
 
-CONSTANTS NGrids   \* <<#subdomains, #interfaces, #boundary grids>> of the harness' grid catalogue (mechanism model only)
+CONSTANTS NGrids,            \* <<#subdomains, #interfaces, #boundary grids>> of the harness' grid catalogue (mechanism model only)
+          TreeShiftKeepsKey  \* mechanism switch (see OperatorKeys!KeyShows): TRUE = the code as it is
 
 T1 == Unpack(C.t1)
 T2 == Unpack(C.t2)
@@ -25,5 +27,6 @@ EqualKeys == Check("EqualKeys", StructEq(T1, T2) => (C.err = "" /\ C.keyeq /\ C.
 DistinctKeys == Check("DistinctKeys", Differ(T1, T2) => (C.err = "" /\ ~C.keyeq))
 HashFollowsKey == Check("HashFollowsKey", (C.err = "" /\ C.keyeq) => C.hasheq)
 \* mechanism (drift only): the keys agree exactly when the transcribed key contents agree
-KeyAsModelled == Check("KeyAsModelled", C.err # "" \/ (C.keyeq <=> KeyModel(T1, NGrids) = KeyModel(T2, NGrids)))
+KeyAsModelled == Check("KeyAsModelled", C.err # "" \/
+  (C.keyeq <=> KeyModel(T1, NGrids) = KeyModel(KeyShows(T2, C.route[1], C.route[2], TreeShiftKeepsKey), NGrids)))
 ==============================================================================
